@@ -120,17 +120,6 @@ def Syn.chars : Syn → List Char
 end
 
 mutual
-theorem Atom.text_chars : ∀ a : Atom, a.text.toList = a.chars
-  | .item n op v false => by simp [Atom.text, Atom.chars, leafText, String.toList_append]
-  | .item n op v true => by simp [Atom.text, Atom.chars, leafText, String.toList_append]
-  | .paren m => by simp [Atom.text, Atom.chars, String.toList_append, Syn.text_chars m]
-theorem Syn.text_chars : ∀ t : Syn, t.text.toList = t.chars
-  | .one a => by simp [Syn.text, Syn.chars, Atom.text_chars a]
-  | .more a isOr rest => by
-      simp [Syn.text, Syn.chars, String.toList_append, Atom.text_chars a, Syn.text_chars rest]
-end
-
-mutual
 /-- every item uses a name and an operator of the grammar and a value that can stand between double quotes -/
 def Atom.Lexable : Atom → Prop
   | .item n op v _ => n ∈ names ∧ op ∈ ops ∧ ValOk v
@@ -138,6 +127,20 @@ def Atom.Lexable : Atom → Prop
 def Syn.Lexable : Syn → Prop
   | .one a => a.Lexable
   | .more a _ rest => a.Lexable ∧ rest.Lexable
+end
+
+theorem ValOk.quoteOf {v : String} (h : ValOk v) : quoteOf v = "\"" := quoteOf_dq (fun c hc => (h c hc).1)
+
+mutual
+/-- a lexable tree is printed with double quotes (a value holding a double quote would be written in single quotes) -/
+theorem Atom.text_chars : ∀ a : Atom, a.Lexable → a.text.toList = a.chars
+  | .item n op v false, h => by simp [Atom.text, Atom.chars, leafText, String.toList_append, ValOk.quoteOf h.2.2]
+  | .item n op v true, h => by simp [Atom.text, Atom.chars, leafText, String.toList_append, ValOk.quoteOf h.2.2]
+  | .paren m, h => by simp [Atom.text, Atom.chars, String.toList_append, Syn.text_chars m h]
+theorem Syn.text_chars : ∀ t : Syn, t.Lexable → t.text.toList = t.chars
+  | .one a, h => by simp [Syn.text, Syn.chars, Atom.text_chars a h]
+  | .more a isOr rest, h => by
+      simp [Syn.text, Syn.chars, String.toList_append, Atom.text_chars a h.1, Syn.text_chars rest h.2]
 end
 
 /-- what may follow a complete `marker` -/
@@ -256,7 +259,7 @@ theorem parseText_text (t : Syn) (hl : t.Lexable) : parseText t.text = .ok t := 
   have hs := Syn.size_le_chars t
   have := parseSyn_chars t (2 * t.chars.length + 2) [] hl (by omega) (Or.inl rfl)
   simp only [List.append_nil] at this
-  simp [parseText, Syn.text_chars, this, skipWs]
+  simp [parseText, Syn.text_chars t hl, this, skipWs]
 
 /-! ### the tree of a marker over lexable leaves is lexable -/
 
